@@ -30,7 +30,7 @@ META = dict(
 )
 
 
-def track(env, topo, perm, box, cm, guess_pn, nframes=2, guess_target=None, still_last=False):
+def track(env, topo, perm, box, cm, guess_pn, nframes=2, guess_target=None, still_last=False, default_guess=False, scale=1.0):
     import forsys as fs
     spec0 = catalogue(topo, n_spoke=2, n_border=2)
     # tracked points = end points of the interfaces forsys itself finds (in sub-tissues some line ends are interior points)
@@ -40,6 +40,8 @@ def track(env, topo, perm, box, cm, guess_pn, nframes=2, guess_target=None, stil
     for e in _f.big_edges_list:
         ends.add(_b.point_of[e[0]])
         ends.add(_b.point_of[e[-1]])
+    if scale != 1.0:
+        spec0.points = {k: (x * scale, y * scale) for k, (x, y) in spec0.points.items()}      # another length unit
     xs = [p[0] for p in spec0.points.values()]
     ys = [p[1] for p in spec0.points.values()]
     extent = max(max(xs) - min(xs), max(ys) - min(ys))
@@ -68,10 +70,13 @@ def track(env, topo, perm, box, cm, guess_pn, nframes=2, guess_target=None, stil
         builts[k] = b
         frames[k] = fs.frames.Frame(k, b.vertices, b.edges, b.cells, time=float(k))
     guess = {k: {} for k in range(nframes)}
+    if guess_target == "@id0":
+        # the user pairs guess_pn with the frame-1 vertex whose id is 0 (a falsy id must still count as taken)
+        guess_target = next((pn for pn in sorted(ends) if builts[1].vid_of[pn] == 0 and pn != guess_pn), None) or sorted(ends - {guess_pn})[0]
     if guess_pn:
         # guess_target: a user pairing that contradicts proximity (the user's word still counts, and its target is taken)
         guess[0] = {builts[0].vid_of[guess_pn]: builts[1].vid_of[guess_target or guess_pn]}
-    ts = fs.time_series.TimeSeries(frames, cm=cm, initial_guess=guess)
+    ts = fs.time_series.TimeSeries(frames, cm=cm) if default_guess else fs.time_series.TimeSeries(frames, cm=cm, initial_guess=guess)
     obs = []
     for k in range(nframes - 1):
         m = ts.mapping[k]
@@ -111,6 +116,13 @@ def jobs(tier):
     # a user pairing that contradicts proximity: its target must still be taken (injectivity), and a three-frame series with
     # a different numbering in every frame (composition order of the backward lookup)
     js.append(Job("contradicting-guess-T3-rev", "c12:track", dict(topo="T3", perm="rev", box=0.003, cm=False, guess_pn="P1", guess_target="P2"),
+                  budget_s=2400, max_paths=2000, weight=3, opts=dict(prune_minmax=True)))
+    js.append(Job("contradicting-guess-to-id-0-T3-id", "c12:track", dict(topo="T3", perm="id", box=0.003, cm=False, guess_pn="P1", guess_target="@id0"),
+                  budget_s=2400, max_paths=2000, weight=3, opts=dict(prune_minmax=True)))
+    js.append(Job("three-frames-default-guess-T3-der", "c12:track", dict(topo="T3", perm="der", box=0.003, cm=False, guess_pn=None, nframes=3,
+                                                                        still_last=True, default_guess=True),
+                  budget_s=2400, max_paths=4000, weight=6, opts=dict(prune_minmax=True)))
+    js.append(Job("small-motion-T3-rev-small-length-unit", "c12:track", dict(topo="T3", perm="rev", box=0.003, cm=False, guess_pn="P1", scale=0.01),
                   budget_s=2400, max_paths=2000, weight=3, opts=dict(prune_minmax=True)))
     if True:
         js.append(Job("three-frames-T3-der-guess=P1", "c12:track", dict(topo="T3", perm="der", box=0.003, cm=False, guess_pn="P1", nframes=3, still_last=True),
